@@ -527,3 +527,136 @@ Example table_declared_exact_nonvacuous :
              /\ aget "T" (a_types (new_app ["A"])) = None
              /\ match aget "T" (a_types a') with Some (Ty (KRel fs pk) _ _ _ _) => pk = ["id"] /\ keys fs = ["id"; "refs"; "name"] | _ => False end.
 Proof. eexists. split; [reflexivity|]. split; [reflexivity|]. vm_compute. split; reflexivity. Qed.
+
+(* ================================================================== 6. the set of type names, through all blocks *)
+Lemma dmethod_types ap a path urls rattrs md a' : dmethod ap a path urls rattrs md = Some a' -> a_types a' = a_types a.
+Proof.
+  unfold dmethod. destruct (dparams ap (m_params md)); [|discriminate].
+  destruct (match e_rest _ with Some _ => _ | None => _ end). intros [= <-]. reflexivity.
+Qed.
+
+Lemma drest_types : forall n ap prefix urls rattrs a a', drest ap prefix urls rattrs n a = Some a' -> a_types a' = a_types a.
+Proof.
+  fix IH 1. intros [segs es children] ap prefix urls rattrs a a'. cbn [drest].
+  generalize (opt_attrs es) as own. revert a.
+  induction children as [|c r IHr]; intros a own H.
+  - injection H as <-. reflexivity.
+  - destruct c as [md|n'|an].
+    + destruct (dmethod ap a _ _ _ md) eqn:Hm; [|discriminate]. rewrite (IHr _ _ H). eapply dmethod_types; eauto.
+    + destruct (drest ap _ _ _ n' a) eqn:Hr; [|discriminate]. rewrite (IHr _ _ H). eapply IH; eauto.
+    + apply (IHr _ _ H).
+Qed.
+
+Definition types_of (m:module) (k:string) : list string :=
+  match aget k m with Some a => keys (a_types a) | None => [] end.
+
+Definition valid_items (items:list (string * Z)) : list (string * Z) :=
+  fold_left (fun m kv => if (int64_max <? snd kv)%Z then m else aset (fst kv) (snd kv) m) items [].
+(* the type names a member puts into its application (an enum without a usable item declares nothing) *)
+Definition member_type_names (mem:member) : list string :=
+  match mem with
+  | MType _ n _ _ _ | MAlias n _ _ _ _ _ | MUnion n _ _ _ => [n]
+  | MEnum n _ _ items => match valid_items items with [] => [] | _ => [n] end
+  | _ => []
+  end.
+
+Lemma upd_types m k0 f m' extra :
+  upd m k0 f = Some m' ->
+  (forall a a', aget k0 m = Some a -> f a = Some a' ->
+     forall t, In t (keys (a_types a')) <-> In t (keys (a_types a)) \/ In t extra) ->
+  forall k t, In t (types_of m' k) <-> In t (types_of m k) \/ (k = k0 /\ In t extra).
+Proof.
+  unfold upd. destruct (aget k0 m) as [a|] eqn:Ha; [|discriminate]. destruct (f a) as [a'|] eqn:Hf; [|discriminate].
+  intros [= <-] Hx k t. unfold types_of. destruct (String.eqb_spec k0 k) as [<-|Hne].
+  - rewrite aget_aset_eq, Ha, (Hx a a' eq_refl Hf). tauto.
+  - rewrite (aget_aset_ne _ _ _ _ Hne). intuition congruence.
+Qed.
+
+Lemma same_types_extra (a a':app) : a_types a' = a_types a ->
+  forall t, In t (keys (a_types a')) <-> In t (keys (a_types a)) \/ In t [].
+Proof. intros ->. cbn [In]. tauto. Qed.
+
+Lemma put_type_extra a n v : forall t, In t (keys (a_types (put_type a n v))) <-> In t (keys (a_types a)) \/ In t [n].
+Proof. intros t. unfold put_type, set_types. cbn [a_types In]. rewrite keys_aset. intuition congruence. Qed.
+
+Lemma dmember_types ap k0 m mem m' : dmember ap k0 m mem = Some m' ->
+  forall k t, In t (types_of m' k) <-> In t (types_of m k) \/ (k = k0 /\ In t (member_type_names mem)).
+Proof.
+  destruct mem; cbn [dmember member_type_names]; intros H.
+  - eapply upd_types; [exact H|]. intros a0 a' _ [= <-]. apply same_types_extra. reflexivity.
+  - eapply upd_types; [exact H|]. intros a0 a' _ Hf. unfold dtable in Hf.
+    destruct (aget n (a_types a0)) as [[k1 o c at_ d|]|];
+      repeat match type of Hf with context [match ?x with _ => _ end] => destruct x end;
+      try discriminate; injection Hf as <-; apply put_type_extra.
+  - eapply upd_types; [exact H|]. intros a0 a' _ [= <-]. unfold denum. fold (valid_items items).
+    destruct (valid_items items); [apply same_types_extra; reflexivity|apply put_type_extra].
+  - eapply upd_types; [exact H|]. intros a0 a' _ Hf. unfold dalias in Hf.
+    destruct (base_type ap [n] t). destruct (match c with CNone => _ | _ => _ end); [|discriminate].
+    injection Hf as <-. apply put_type_extra.
+  - eapply upd_types; [exact H|]. intros a0 a' _ Hf. unfold dunion in Hf.
+    destruct (dunion_members ap n ms); [|discriminate]. injection Hf as <-. apply put_type_extra.
+  - eapply upd_types; [exact H|]. intros a0 a' _ Hf. apply same_types_extra. unfold dendpoint in Hf.
+    destruct (dparams ap params); [|discriminate]. injection Hf as <-. reflexivity.
+  - eapply upd_types; [exact H|]. intros a0 a' _ Hf. apply same_types_extra. eapply drest_types; eauto.
+  - eapply upd_types; [exact H|]. intros a0 a' _ [= <-]. apply same_types_extra. reflexivity.
+  - eapply upd_types; [exact H|]. intros a0 a' _ Hf. apply same_types_extra. unfold devent in Hf.
+    destruct (dparams ap params); [|discriminate]. injection Hf as <-. reflexivity.
+  - unfold dsubscribe in H. destruct (upd m k0 _) as [m1|] eqn:Hu; [|discriminate]. injection H as <-.
+    intros k t.
+    assert (H1 : In t (types_of m1 k) <-> In t (types_of m k)).
+    { rewrite (upd_types _ _ _ _ [] Hu); [cbn [In]; tauto|]. intros a0 a' _ [= <-]. apply same_types_extra. reflexivity. }
+    rewrite <- H1. cbn [In]. unfold types_of at 1. destruct (String.eqb_spec (app_key a) k) as [<-|Hne].
+    + rewrite aget_aset_eq. unfold types_of. destruct (aget (app_key a) m1); cbn; tauto.
+    + rewrite (aget_aset_ne _ _ _ _ Hne). fold (types_of m1 k). tauto.
+Qed.
+
+Lemma dmembers_types ap k0 : forall ms m m', dmembers ap k0 m ms = Some m' ->
+  forall k t, In t (types_of m' k) <-> In t (types_of m k) \/ (k = k0 /\ In t (flat_map member_type_names ms)).
+Proof.
+  induction ms as [|mem r IH]; intros m m' H k t; cbn [dmembers flat_map] in *.
+  - injection H as <-. cbn [In]. tauto.
+  - destruct (dmember ap k0 m mem) as [m1|] eqn:Hm; [|discriminate].
+    rewrite (IH _ _ H), (dmember_types _ _ _ _ _ Hm), in_app_iff. tauto.
+Qed.
+
+Definition block_type_names (k:string) (b:block) : list string :=
+  if String.eqb (app_key (b_app b)) k then flat_map member_type_names (b_members b) else [].
+Definition declared_types (s:spec) (k:string) : list string := flat_map (block_type_names k) (concat s).
+
+Lemma dblocks_types : forall bs m m', dblocks m bs = Some m' ->
+  forall k t, In t (types_of m' k) <-> In t (types_of m k) \/ In t (flat_map (block_type_names k) bs).
+Proof.
+  induction bs as [|b r IH]; intros m m' H k t; cbn [dblocks flat_map] in *.
+  - injection H as <-. cbn [In]. tauto.
+  - destruct (dblock m b) as [m1|] eqn:Hb; [|discriminate]. unfold dblock in Hb.
+    rewrite (IH _ _ H), (dmembers_types _ _ _ _ _ Hb), in_app_iff. unfold block_type_names.
+    assert (Hsame : In t (types_of (aset (app_key (b_app b))
+              (A (b_app b) match b_long b with Some l => l | None => a_long match aget (app_key (b_app b)) m with Some a => a | None => new_app [] end end
+                 match b_attribs b with [] => a_attrs match aget (app_key (b_app b)) m with Some a => a | None => new_app [] end
+                                   | e :: l => merge_attrs (make_attrs (e :: l)) (a_attrs match aget (app_key (b_app b)) m with Some a => a | None => new_app [] end) end
+                 (a_types match aget (app_key (b_app b)) m with Some a => a | None => new_app [] end)
+                 (a_eps match aget (app_key (b_app b)) m with Some a => a | None => new_app [] end)
+                 (a_mixins match aget (app_key (b_app b)) m with Some a => a | None => new_app [] end)) m) k)
+            <-> In t (types_of m k)).
+    { unfold types_of. destruct (String.eqb_spec (app_key (b_app b)) k) as [<-|Hne].
+      - rewrite aget_aset_eq. cbn [a_types]. destruct (aget (app_key (b_app b)) m); cbn; tauto.
+      - rewrite (aget_aset_ne _ _ _ _ Hne). tauto. }
+    rewrite Hsame. destruct (String.eqb_spec (app_key (b_app b)) k) as [Heq|Hne]; cbn [In]; intuition congruence.
+Qed.
+
+(* types_exact: in every application of the module built by the listener, the type names are exactly the ones
+   declared for that application by !type / !table / !alias / !union / !enum (with a usable item) members of
+   its blocks - over all blocks, whatever else (endpoints, REST trees, events, subscriptions from other
+   applications, mixins, annotations) is declared around them. Nothing declared is missing, nothing is invented. *)
+Theorem listen_types_exact : forall s m, listen s = Some m ->
+  forall k t, In t (types_of m k) <-> In t (declared_types s k).
+Proof.
+  intros s m H k t. unfold listen in H. rewrite (dblocks_types _ _ _ H). unfold types_of at 1. cbn [aget In]. unfold declared_types. tauto.
+Qed.
+
+Example listen_types_exact_nonvacuous :
+  match listen [[Bk ["A"] None [] [MEnum "E" [] [] [("a", 70000%Z)]; MEndpoint "Ep" None [] [] [] [XRet "ok"]];
+                  Bk ["B"] None [] [MSubscribe ["A"] "Ev" [] []; MUnion "U" [] [] [Um CNone (XNative NInt) ZNone]];
+                  Bk ["A"] None [] [MType true "T" [] false []; MRest (RNode [PStatic "x"] [] [RMethod (Md MGet [] [] [] [] [] [XRet "ok"])])]]]
+  with Some m => types_of m "A" = ["E"; "T"] /\ types_of m "B" = ["U"] | None => False end.
+Proof. vm_compute. split; reflexivity. Qed.
